@@ -54,6 +54,13 @@ CLAIMED = {
             "quick / all pairs + triples thorough) equals the result in a history-free process, and a second reproduction after more interleaving "
             "equals the first; each history runs in its own process. Different seeds / unseeded calls read disjoint draws (not forced equal)",
             "stream model of numpy.random (documented seeding semantics); N = 2 grids; opaque content-named linear-algebra results."),
+    "C07": ("3 C07", "ft_phase_screen with r0, L0, l0, delta symbolic and the draws injected through `seed`: linear and homogeneous in the draws "
+            "(zero mean), real; the exact ensemble covariance sum_k U_k(p)U_k(q) (unit-draw responses of the real code) equals the inverse DFT sum of "
+            "0.023 r0^(-5/3) exp(-(f/fm)^2)(f^2+1/L0^2)^(-11/6) on the code's frequency grid with DC removed, for every pixel pair; variance independent "
+            "of position; amplitude ~ r0^(-5/6) for fixed draws (lemma chain at the algebraic power and the square roots); sub-harmonic variant: low "
+            "part zero-mean over the grid, reads draws disjoint from the high-frequency ones for Generator / integer / None seeds, whole screen ~ "
+            "r0^(-5/6); N = 2 quick, N = 4 thorough. NOT claimed: convergence to the analytic structure function, 'closer at large separations'",
+            "exp and the 11/6 power are uninterpreted positive functions keyed by their canonical argument; odd N outside."),
     "C09": ("4 C09", "ft/ift/ft2/ift2 and the real variants, as exported by the module and by the package, are inverse "
             "pairs, linear, satisfy Parseval, equal the centred DFT (origin at the centre sample) and obey the shift "
             "theorem for every complex input and every delta>0 at each listed size (1-D N<=5 quick / <=8 thorough, "
